@@ -242,3 +242,42 @@ func mathBin(name string, x, y float64) *float64 {
 	}
 	return &r
 }
+
+func (ex *Exec) cmpStrings(x, y StringV) *Term {
+	lt := ex.stringLess(x, y, false)
+	gt := ex.stringLess(y, x, false)
+	return ex.ts.Ite(lt, ex.goInt(-1), ex.ts.Ite(gt, ex.goInt(1), ex.goInt(0)))
+}
+
+func init() {
+	cmp := func(ex *Exec, fr *Frame, fn *ssa.Function, a []Value, site ssa.Instruction) Value {
+		return ex.cmpStrings(a[0].(StringV), a[1].(StringV))
+	}
+	registerIntrinsic("strings.Compare", cmp)
+	registerIntrinsic("internal/bytealg.CompareString", cmp)
+	registerIntrinsic("internal/bytealg.abigen_runtime_cmpstring", cmp)
+	registerIntrinsic("internal/bytealg.Compare", func(ex *Exec, fr *Frame, fn *ssa.Function, a []Value, site ssa.Instruction) Value {
+		toS := func(v Value) StringV {
+			var bs []*Term
+			for _, e := range ex.sliceElems(v.(SliceV)) {
+				bs = append(bs, e.(*Term))
+			}
+			return StringV{B: bs}
+		}
+		return ex.cmpStrings(toS(a[0]), toS(a[1]))
+	})
+}
+
+func init() {
+	registerIntrinsic("internal/bytealg.MakeNoZero", func(ex *Exec, fr *Frame, fn *ssa.Function, a []Value, site ssa.Instruction) Value {
+		n := ex.concreteIntOrAbort(a[0].(*Term), 65, "MakeNoZero len")
+		if n < 0 || n > 1<<20 {
+			ex.goPanicRuntime("makeslice: len out of range", ex.posOf(site))
+		}
+		elems := make([]Value, n)
+		for i := range elems {
+			elems[i] = ex.byteConst(0)
+		}
+		return ex.newSlice(types.Typ[types.Uint8], elems, n, "MakeNoZero")
+	})
+}
